@@ -439,6 +439,9 @@ MALFORMATIONS = {
     "mixed-id": ("vjce", True), "bool-id": ("vjce", True),
     "no-visit-left": ("v", False), "empty-table": ("vjce", False), "dup-id-event-table": ("e", True),
     "two-event-times": ("j", True), "two-event-indicators": ("j", True), "event-before-last-visit": ("j", True),
+    # an observed event before the last visit of one individual, next to ANOTHER individual censored before its last visit (which alone
+    # is accepted with a warning): whether the first one is refused must not depend on who else is in the table
+    "event-before-last-visit-next-to-censored": ("j", True),
     "event-time-not-positive": ("je", True), "event-time-nan": ("je", True), "event-time-inf": ("je", True),
     # the event age is missing on ONE row of an individual that has it on another row (a NaN-unaware positivity test lets it through)
     "event-time-nan-one-row": ("j", True), "event-time-not-positive-one-row": ("j", True),
@@ -572,6 +575,21 @@ def malform(rng, spec, kind):
         for i in idx:
             s["evt"][i] = evt
             s["evb"][i] = max(1.0, s["evb"][i])
+    elif kind == "event-before-last-visit-next-to-censored":
+        i0 = s["ids"][k]
+        others = [x for x in dict.fromkeys(map(repr, s["ids"])) if x != repr(i0)]
+        if not others:
+            return None
+        j0 = rng.choice(others)
+        for ident, observed in ((repr(i0), True), (j0, False)):
+            idx = [i for i in range(n) if repr(s["ids"][i]) == ident]
+            last = max(float(s["time"][i]) for i in idx)
+            evt = last - rng.choice([0.002, 0.125, 1.0, 5.0])
+            if evt <= 0:
+                return None
+            for i in idx:
+                s["evt"][i] = evt
+                s["evb"][i] = max(1.0, s["evb"][i]) if observed else 0.0
     elif kind in ("event-time-not-positive", "event-time-nan", "event-time-inf"):
         v = dict([("event-time-not-positive", rng.choice([0.0, -1.0, -70.5, 4e-7])), ("event-time-nan", NAN), ("event-time-inf", rng.choice([INF, -INF]))])[kind]
         i0 = s["ids"][k]
